@@ -73,7 +73,7 @@ HasErrC(cs, kind) == \E k \in 1..Len(cs) : cs[k][4] = kind
 HasZeroC(cs) == \E k \in 1..Len(cs) : cs[k][4] = "ok" /\ cs[k][5] = 0 /\ Len(cs[k][3]) > 0
 LastShort(cs) == cs # <<>> /\ cs[Len(cs)][4] = "ok" /\ cs[Len(cs)][5] < Len(cs[Len(cs)][3])
 
-\* ConsoleCallOk(x, e) = <<ok, x'>>
+\* ConsoleCallOk(x, e) = <<ok, x'>>   (the property as stated; no tolerance)
 ConsoleCallOk(x, e) ==
   LET obs  == DropDel(FlatConsole(e.console))
       kind == e.ret[1]
@@ -82,8 +82,62 @@ ConsoleCallOk(x, e) ==
       prefixOnly    == w[3] /\ w[2] = Len(obs) + 1          \* everything observed is right, but text is missing
   IN IF kind = "ok" THEN
         IF e.op = "write" THEN
-           <<e.ret[2] = Len(e.buf) /\ ~HasErrC(e.console, "eI") /\ ~HasErrC(e.console, "eO")
-             /\ (allHandedOver \/ (AcceptShortWriteAbandon /\ prefixOnly /\ LastShort(e.console))), w[1]>>
+           <<e.ret[2] = Len(e.buf) /\ ~HasErrC(e.console, "eI") /\ ~HasErrC(e.console, "eO") /\ allHandedOver, w[1]>>
         ELSE <<~HasErrC(e.console, "eO") /\ ~HasZeroC(e.console) /\ allHandedOver, w[1]>>
      ELSE <<prefixOnly /\ ((kind \in {"eI", "eO"} /\ HasErrC(e.console, kind)) \/ (kind = "eZ" /\ HasZeroC(e.console)) \/ kind = "eF"), w[1]>>
+
+(***************************************************************************)
+(* Finding F13 exactly as the code does it (tolerance, only while the       *)
+(* finding is open): in `write`, when the console accepts less than the run *)
+(* it was offered, the loop over the lazy extractor is left: the REST OF    *)
+(* THE BUFFER IS NEITHER HANDED OVER NOR PARSED, and Ok(len) is returned.   *)
+(* The extractor had stopped right after the SGR that ended the offered run *)
+(* (or at the end of the buffer), so the carried state is the state at that *)
+(* cut.  The offered data of every console call is in the record, so the    *)
+(* cut is one of: an SGR dispatch after the last offered character and      *)
+(* before the next visible one; the end of the buffer if no visible         *)
+(* character follows.  (Which SGR "changed the style" is not decided here:  *)
+(* every such position is a candidate - the trace specification branches.)  *)
+(***************************************************************************)
+RECURSIVE FlatOffered(_)
+FlatOffered(cs) ==
+  IF cs = <<>> THEN <<>>
+  ELSE LET c == Head(cs) IN [i \in 1..Len(c[3]) |-> <<<<c[1], c[2]>>, c[3][i]>>] \o FlatOffered(Tail(cs))
+
+\* a = [x, k, ok, past, cuts]
+RECURSIVE AbEv(_, _, _)
+AbEv(a, evs, obs) ==
+  IF evs = <<>> \/ ~a.ok THEN a
+  ELSE LET e == Head(evs) IN
+    IF IsVisible(e) /\ CharOf(e) # 127 THEN
+       IF a.past THEN AbEv(a, Tail(evs), obs)
+       ELSE IF a.k > Len(obs) THEN AbEv([a EXCEPT !.past = TRUE], Tail(evs), obs)
+       ELSE LET bs == IF e.k = "print" THEN U8Encode(e.c) ELSE <<e.b>>
+                m  == MatchBytes(a.x, bs, obs, a.k)
+            IN IF m[3] THEN AbEv([a EXCEPT !.x = m[1], !.k = m[2]], Tail(evs), obs)
+               ELSE [a EXCEPT !.ok = FALSE]
+    ELSE IF IsSgr(e) THEN
+       LET x2 == SgrStep(a.x, e.p) IN
+       AbEv([a EXCEPT !.x = x2, !.cuts = IF ~a.past /\ a.k = Len(obs) + 1 THEN a.cuts \union {x2} ELSE a.cuts], Tail(evs), obs)
+    ELSE AbEv(a, Tail(evs), obs)
+
+RECURSIVE AbWalk(_, _, _)
+AbWalk(a, bytes, obs) ==
+  IF bytes = <<>> \/ ~a.ok THEN a
+  ELSE LET r == VP!Step(a.x.ps, Head(bytes))
+       IN AbWalk(AbEv([a EXCEPT !.x.ps = r[1]], r[2], obs), Tail(bytes), obs)
+
+AbandonNext(x, e) ==
+  LET obs == DropDel(FlatOffered(e.console))
+      n   == Len(e.console)
+      a   == AbWalk([x |-> x, k |-> 1, ok |-> TRUE, past |-> FALSE, cuts |-> {}], e.buf, obs)
+      good == /\ a.ok /\ a.k = Len(obs) + 1
+              /\ e.ret[2] = Len(e.buf) /\ ~HasErrC(e.console, "eI") /\ ~HasErrC(e.console, "eO")
+              /\ \A j \in 1..(n - 1) : e.console[j][5] = Len(e.console[j][3])
+  IN IF ~good THEN {} ELSE a.cuts \union (IF a.past THEN {} ELSE {a.x})
+
+\* the set of judge states after the call; {} = the call is not allowed
+ConsoleNext(x, e) ==
+  IF AcceptShortWriteAbandon /\ e.op = "write" /\ e.ret[1] = "ok" /\ LastShort(e.console) THEN AbandonNext(x, e)
+  ELSE LET c == ConsoleCallOk(x, e) IN IF c[1] THEN {c[2]} ELSE {}
 =============================================================================
